@@ -235,3 +235,40 @@ def empty_wave_some(cases, seed, p=0.5):
     for case in cases:
         if "cat_date" in (case.get("kinds") or ()) and not case.get("dominant") and erng.random() < p:
             empty_wave(case, erng)
+
+
+# ------------------------------------------------------------------------------------
+# WARNINGS-AS-ERRORS LEG (shared): outputs the library computes inside `np.errstate(.. "ignore")` blocks
+# ("do not propagate divide-by-zero warnings") must not turn into exceptions when the caller runs with
+# `-W error`.  Only for outputs that are warning-free on the unchanged tree (probed over 400 generated
+# cases incl. dominant cells and empty waves); the ones that DO warn there are listed in WARNS_ANYWAY and
+# never compared (margin proportions and scale-mean margins of empty tables, the smoothed outputs'
+# deliberate UserWarnings, summary_pairwise_indices, the strand's standard errors / share of sum).
+# ------------------------------------------------------------------------------------
+
+WARNS_ANYWAY = {"columns_margin_proportion", "rows_margin_proportion", "columns_scale_mean_margin",
+                "rows_scale_mean_margin", "smoothed_column_index", "smoothed_column_percentages",
+                "smoothed_column_proportions", "smoothed_columns_scale_mean", "smoothed_means",
+                "summary_pairwise_indices", "population_counts_moe", "population_proportion_stderrs",
+                "share_sum", "table_proportion_moes", "table_proportion_stddevs", "table_proportion_stderrs"}
+
+
+def warnings_as_errors(case, names, transforms=_CASE, k=0, population=None):
+    """Read `names` (minus WARNS_ANYWAY) on a fresh partition normally and on another one with every Python
+    warning turned into an error; returns [(name, normal, strict)] for the names whose canonical values
+    differ (an exception instead of a value included)."""
+    tr = case["transforms"] if transforms is _CASE else transforms
+    names = [n for n in names if n not in WARNS_ANYWAY]
+    p = impl.partition(case["response"], tr, k=k, population=population)
+    q = impl.partition(case["response"], tr, k=k, population=population)
+    out = []
+    for n in names:
+        a = _canon_read(impl.get(p, n))
+        impl.WARN_FILTER = "error"
+        try:
+            b = _canon_read(impl.get(q, n))
+        finally:
+            impl.WARN_FILTER = "ignore"
+        if a != b:
+            out.append((n, a, b))
+    return out
